@@ -1379,6 +1379,7 @@ func (c *Ctx) loopClasses(fns []*ssa.Function) {
 	}
 	c.rep.Extra["loop_classes"] = classes
 	c.floor("LOOP", 60)
+	c.workStackBudgets(fns)
 }
 
 // loopShape names a loop by the shape of its controlling condition.
